@@ -20,7 +20,7 @@ def ceil_mul(x, m):
 
 class T:
     def __init__(self, rust, size, align, sized=True, portable=False, default=True, trivial=True,
-                 comps=(), kind="prim", emplacers=None, min_size=None, name=None, length=False, zst=False):
+                 comps=(), kind="prim", emplacers=None, min_size=None, name=None, length=False, zst=False, fname=None):
         self.rust = rust
         self.size = size
         self.align = align
@@ -36,11 +36,12 @@ class T:
         self.length = length
         self.zst = zst
         self.defn = None
+        self.fname = fname or rust  # the type as the facts print it, module paths stripped
 
     def describe(self):
-        return {"rust": self.rust, "kind": self.kind, "size": self.size, "align": self.align, "sized": self.sized,
+        return {"rust": self.rust, "fty": self.fname, "kind": self.kind, "size": self.size, "align": self.align, "sized": self.sized,
                 "min_size": self.min_size, "portable": self.portable, "default": self.default,
-                "trivial": self.trivial, "comps": [c.rust for c in self.comps]}
+                "trivial": self.trivial, "comps": [c.fname for c in self.comps]}
 
 
 def prim(n, s, a, portable=False, length=False):
@@ -60,12 +61,13 @@ I64 = prim("i64", 8, 8)
 F32 = prim("f32", 4, 4)
 F64 = prim("f64", 8, 8)
 UNIT = prim("()", 0, 1, portable=True)
-BOOL = T("flatty::portable::Bool", 1, 1, portable=True, trivial=False, kind="bool", name="Bool")
+BOOL = T("flatty::portable::Bool", 1, 1, portable=True, trivial=False, kind="bool", name="Bool", fname="Bool")
 
 
 def pint(mod, n, bits, length):
     return T("flatty::portable::%s::%s" % (mod, n), bits // 8, 1, portable=True, kind="pint", length=length,
-             name="%s::%s" % (mod, n))
+             name="%s::%s" % (mod, n),
+             fname="Int<%s, %d, %s>" % ("true" if mod == "be" else "false", bits // 8, "true" if n.startswith("I") else "false"))
 
 
 LE_U16 = pint("le", "U16", 16, True)
@@ -75,13 +77,14 @@ BE_U16 = pint("be", "U16", 16, True)
 BE_U32 = pint("be", "U32", 32, True)
 LE_I32 = pint("le", "I32", 32, False)
 BE_I64 = pint("be", "I64", 64, False)
-LE_F64 = T("flatty::portable::le::F64", 8, 1, portable=True, kind="pfloat", name="le::F64")
-BE_F32 = T("flatty::portable::be::F32", 4, 1, portable=True, kind="pfloat", name="be::F32")
+LE_F64 = T("flatty::portable::le::F64", 8, 1, portable=True, kind="pfloat", name="le::F64", fname="Float<false, 8>")
+BE_F32 = T("flatty::portable::be::F32", 4, 1, portable=True, kind="pfloat", name="be::F32", fname="Float<true, 4>")
 
 
 def array(t, n):
     return T("[%s; %d]" % (t.rust, n), t.size * n, t.align, portable=t.portable, default=t.default,
-             trivial=t.trivial or n == 0, comps=[t] if n > 0 else [], kind="array", zst=(t.size * n == 0))
+             trivial=t.trivial or n == 0, comps=[t] if n > 0 else [], kind="array", zst=(t.size * n == 0),
+             fname="[%s; %d]" % (t.fname, n))
 
 
 def flatvec(t, l):
@@ -92,7 +95,7 @@ def flatvec(t, l):
         em.append("flatty::vec::FromIterator<%s, core::ops::Range<%s>>" % (t.rust, t.rust))
     r = T("flatty::FlatVec<%s, %s>" % (t.rust, l.rust), None, align, sized=False,
           portable=t.portable and l.portable, default=True, trivial=False, comps=[l, t], kind="vec",
-          emplacers=em, min_size=off)
+          emplacers=em, min_size=off, fname="FlatVec<%s, %s>" % (t.fname, l.fname))
     r.elem, r.len_ty, r.data_offset = t, l, off
     return r
 
@@ -100,7 +103,8 @@ def flatvec(t, l):
 def flatstring(l):
     r = T("flatty::FlatString<%s>" % l.rust, None, l.align, sized=False, portable=l.portable, default=True,
           trivial=False, comps=[l], kind="string",
-          emplacers=["flatty::string::Empty", "flatty::string::FromStr<&'static str>"], min_size=l.size)
+          emplacers=["flatty::string::Empty", "flatty::string::FromStr<&'static str>"], min_size=l.size,
+          fname="FlatString<%s>" % l.fname)
     r.len_ty, r.data_offset = l, l.size
     return r
 
@@ -114,7 +118,7 @@ def flexvec(t, l):
         em.append("flatty::flex::FromIterator<%s, %s, core::array::IntoIter<%s, 2>>" % (t.rust, e, e))
     r = T("flatty::FlexVec<%s, %s>" % (t.rust, l.rust), None, align, sized=False,
           portable=t.portable and l.portable, default=True, trivial=False, comps=[l, t], kind="flex",
-          emplacers=em, min_size=off)
+          emplacers=em, min_size=off, fname="FlexVec<%s, %s>" % (t.fname, l.fname))
     r.elem, r.len_ty, r.offset_size = t, l, off
     return r
 
@@ -292,7 +296,7 @@ class Def:
              "emplacers": self.t.emplacers}
         if self.kind == "struct":
             m["fields"] = [{"name": fn, "ty": t.rust, "offset": o, "size": t.size, "align": t.align, "sized": t.sized,
-                            "trivial": t.trivial, "kind": t.kind}
+                            "trivial": t.trivial, "kind": t.kind, "fty": t.fname, "default": t.default}
                            for (fn, t), o in zip(self.fields, self.offsets)]
             if not self.sized:
                 m["last_field_offset"] = self.last_field_offset
@@ -304,7 +308,7 @@ class Def:
                 m["variants"].append({"name": vn, "style": st, "default": isdef,
                                       "discr": (self.discrs[i] if self.discrs else None),
                                       "fields": [{"name": fn, "ty": t.rust, "offset": o, "size": t.size, "align": t.align,
-                                                  "sized": t.sized, "trivial": t.trivial, "kind": t.kind}
+                                                  "sized": t.sized, "trivial": t.trivial, "kind": t.kind, "fty": t.fname, "default": t.default}
                                                  for (fn, t), o in zip(fs, self.variant_offsets[i])]})
             if not self.sized:
                 m["data_min_sizes"] = self.data_min_sizes
